@@ -382,6 +382,12 @@ def probe(d: Daemon, mode: str, exp: dict[str, Any], status_keys: list[str], pid
         b = barrier(d.status_file)
         if "error" not in b:
             break
+        if "platform" in b or "python_version" in b:
+            # the daemon itself answered the well-formed status request with an error reply: it is alive
+            p["barrier_reply_error"] = str(b["error"])[:300]
+            if "Daemon crashed" in p["barrier_reply_error"]:
+                d.wait_exit(10)  # it announced its own death while answering the probe
+            break
         p["barrier_error"] = str(b["error"])[:300]
         if d.wait_exit(10):
             break
@@ -403,7 +409,7 @@ def probe(d: Daemon, mode: str, exp: dict[str, Any], status_keys: list[str], pid
         return p
     p.pop("barrier_error", None)
     keys = sorted(b)
-    if keys != status_keys:
+    if keys != status_keys and "barrier_reply_error" not in p:
         p["barrier_foreign"] = True
         p["barrier_keys"] = keys
     sf = d.status_file_state()
